@@ -36,14 +36,21 @@ C19_ReturnsInTimeObs == Is("Call") => Cur.dur <= Cur.timeout + Margin
 C19_NoPanicObs == Is("Call") => Cur.outcome \in {"ok", "err"}
 C19_TrimmedOutput == Is("Call") /\ Cur.outcome = "ok" => Cur.trimmed
 \* conformance with the call machine of Exec.tla: which outcome each failure mode must have
+WrapFail == {"garbage", "digits", "empty", "exit3", "errnonl", "okexit", "sleep"}
 MustFail == {"exit3", "exit1silent", "killed", "notExecutable", "badFormat", "missing", "badInterpreter",
              "sleepPastDeadline", "execSleep", "ignoresTerm", "hugeThenSleep",
-             "sensor:exit3", "sensor:sleepPastDeadline", "sensor:garbage"}
-MustSucceed == {"ok", "okTrim", "empty", "garbage", "huge"}
+             "stderrNoNewline", "stderrBlankLines", "stderrHuge", "stderrBinary", "killedWithStderr", "termSelf",
+             "closesStdoutThenSleeps", "exit255"}
+            \cup {pfx \o ":" \o m : pfx \in {"sensor", "fan.getPwm", "fan.getRpm"}, m \in WrapFail}
+            \cup {"fan.setPwm:" \o m : m \in {"exit3", "errnonl", "okexit", "sleep"}}
+MustSucceed == {"ok", "okTrim", "empty", "garbage", "huge", "okWithStderr", "okNoNewline", "readsStdin"}
+               \cup {pfx \o ":ok" : pfx \in {"sensor", "fan.getPwm", "fan.getRpm", "fan.setPwm"}}
+               \cup {"fan.setPwm:" \o m : m \in {"garbage", "digits", "empty", "nan"}}
+               \cup {"sensoravg:" \o m : m \in WrapFail \cup {"ok", "grandchild", "nan"}}
 C19_Conforms == Is("Call") =>
   /\ (Cur.mode \in MustFail => Cur.outcome = "err")
   /\ (Cur.mode \in MustSucceed /\ Cur.timeout >= 1000 => Cur.outcome = "ok")
-  /\ (Cur.mode = "ok" /\ Cur.outcome = "ok" => Cur.sample = "42")
+  /\ (Cur.mode \in {"ok", "okWithStderr", "okNoNewline", "readsStdin", "sensor:ok", "fan.getPwm:ok", "fan.getRpm:ok"} /\ Cur.outcome = "ok" => Cur.sample = "42")
   /\ (Cur.mode = "okTrim" /\ Cur.outcome = "ok" => Cur.sample = " 17.5 ")
 
 Report == l = N + 1 => PrintT(<<"TRACE-DONE", N, "DRIFT", <<>>>>)
